@@ -237,6 +237,10 @@ func init() {
 		zz + "FSTouch":     nop,
 		zz + "FSSymlink":   nop,
 		zz + "FSEnterTemp": nop,
+		zz + "FakeCommand": func(w *Worker, _ *ssa.Function, _ []Value, _ ssa.CallInstruction) Value { return w.strConst("") },
+		"os.Getwd": func(w *Worker, _ *ssa.Function, _ []Value, _ ssa.CallInstruction) Value {
+			return TupleV{w.strConst("/"), IfaceV{}}
+		},
 		"os.Setenv": func(w *Worker, _ *ssa.Function, args []Value, _ ssa.CallInstruction) Value {
 			return IfaceV{} // environment comes from the job configuration (os.Getenv intrinsic)
 		},
